@@ -321,6 +321,11 @@ func behaviours(seed uint64) []Behaviour {
 	add("w500", clWritten, 500, probe.Spec{Code: 500, Writes: w(700)})
 	add("w503-70000-flush", clWritten, 503, probe.Spec{Code: 503, Writes: w(-30000, -40000)})
 	add("w200-ce-deflate", clWritten, 200, probe.Spec{Code: 200, Hdr: [][2]string{{"Content-Encoding", "deflate"}}, Writes: w(400)}).HandlerCE = "deflate"
+	// --- written with io.Copy (the way files are sent)
+	add("w200-copy-3000", clWritten, 200, probe.Spec{Code: 200, Copy: true, Writes: w(3000)})
+	add("w200-copy-cl-70000", clWritten, 200, probe.Spec{Code: 200, Copy: true, Hdr: [][2]string{{"Content-Length", "70000"}}, Writes: w(30000, 40000)})
+	add("w200-copy-ce-deflate", clWritten, 200, probe.Spec{Code: 200, Copy: true, Hdr: [][2]string{{"Content-Encoding", "deflate"}}, Writes: w(2400)}).HandlerCE = "deflate"
+	add("w404-copy-implicit", clWritten, 404, probe.Spec{Code: 404, Copy: true, Writes: w(50, 60)})
 	// --- written, but the body is not a valid template
 	badTpl := "<html><body>{{ .Unclosed action " + strings.Repeat("padding ", 30) + "</body></html>"
 	add("w200-cl-etag-invalid-template", clWrittenBadTpl, 200, probe.Spec{Code: 200, Text: badTpl,
